@@ -125,7 +125,7 @@ func (s *Store) finish(k Key, old *Obj, neu map[string]any, applied map[string]b
 		}
 		return neu
 	}
-	if Terminating(neu) && len(Finalizers(neu)) == 0 {
+	if Terminating(neu) && len(Finalizers(neu)) == 0 && !(s.Graceful[k.GK()] && len(Finalizers(old.Content)) == 0) {
 		delete(s.Objs, k)
 		m["resourceVersion"] = s.nextRV()
 		return neu
@@ -561,7 +561,7 @@ func (s *Store) Delete(k Key, o DeleteOpts) *apierrors.StatusError {
 	case "Foreground":
 		fin = appendUnique(fin, "foregroundDeletion")
 	}
-	if len(fin) == 0 {
+	if len(fin) == 0 && !s.Graceful[k.GK()] {
 		delete(s.Objs, k)
 		s.nextRV()
 		return nil
@@ -573,7 +573,9 @@ func (s *Store) Delete(k Key, o DeleteOpts) *apierrors.StatusError {
 	for i, f := range fin {
 		l[i] = f
 	}
-	m["finalizers"] = l
+	if len(l) > 0 {
+		m["finalizers"] = l
+	}
 	m["deletionTimestamp"] = s.now()
 	m["resourceVersion"] = s.nextRV()
 	return nil
